@@ -21,7 +21,8 @@ RULE = ("the whole configuration lattice is enumerated: {TripleStream,QuadStream
         "BoundedFrameFlow, FlatTriples-, FlatQuads-, Graphs-, DatasetsFrameFlow, each with default and with matching "
         "logical type} x entry points {generic stream_frames(sink|generator), flat_stream_to_file, grouped_stream_to_file, "
         "sink.serialize; rdflib Graph.serialize(stream=|options=), flat_stream_to_file, grouped_stream_to_file; generator entry "
-        "points also with the frames gathered in a list before being written} x inputs of "
+        "points also with the frames gathered in a list before being written; plus two flat_stream_to_file calls that share one "
+        "options object and overlap (the inner call made from inside the outer call's input generator)} x inputs of "
         "1, 3, 5 statements with fresh terms and 4, 6 statements re-using terms (single-row statements). Oracle for every configuration that returns without raising: every stream the entry point "
         "created or was given has an empty flow, and the bytes decode (pyjelly parser and reference decoder) to the input "
         "(documented quads->TRIPLES projection applied). Raising is always acceptable. Non-trivial = distinct accepted "
@@ -237,8 +238,65 @@ def judge(c: dict, res: dict):
     return None
 
 
+def nested_cases():
+    """Two serializations that share ONE SerializerOptions(flow=None) object and overlap at statement granularity:
+    the inner *_to_file call is made from inside the outer call's input generator."""
+    for integ in ("generic", "rdflib"):
+        for arity in (3, 4):
+            for fs in (1, 3, 250):
+                for delimited in (True, False):
+                    for n_outer, n_inner, at in ((5, 3, 2), (-6, 5, 4), (3, -4, 1)):
+                        yield {"entry": "nested_flat_to_file", "integration": integ, "arity": arity, "frame_size": fs,
+                               "delimited": delimited, "n": n_outer, "n_inner": n_inner, "at": at, "physical": 0,
+                               "logical": 1 if arity == 3 else 2, "flow": "inferred", "flow_logical": None, "collect": False}
+
+
+def run_nested(c: dict):
+    """-> witness or None"""
+    mod = gser if c["integration"] == "generic" else rser
+    conv = T.stmt_to_generic if c["integration"] == "generic" else T.stmt_to_rdflib
+    options = SerializerOptions(frame_size=c["frame_size"], logical_type=c["logical"],
+                                params=StreamParameters(delimited=c["delimited"], generalized_statements=True, rdf_star=True),
+                                lookup_preset=LookupPreset.small())
+    outer_in = inputs(c["arity"], c["n"])
+    inner_in = [tuple(("iri", t[1] + "/inner") if t[0] == "iri" else t for t in st) for st in inputs(c["arity"], c["n_inner"])]
+    out_outer, out_inner = io.BytesIO(), io.BytesIO()
+
+    def outer_gen():
+        for k, st in enumerate(outer_in):
+            if k == c["at"]:
+                mod.flat_stream_to_file((conv(x) for x in inner_in), out_inner, options=options)
+            yield conv(st)
+    try:
+        mod.flat_stream_to_file(outer_gen(), out_outer, options=options)
+    except Exception:  # noqa: BLE001 - refusing is fine
+        return None, "raised"
+    for name, data, want in (("outer", out_outer.getvalue(), outer_in), ("inner", out_inner.getvalue(), inner_in)):
+        try:
+            got = [T.norm_stmt(e[1]) for e in pj.parse("generic", "flat", data) if e[0] == "stmt"]
+        except Exception as ex:  # noqa: BLE001
+            return {"clause": "bytes-do-not-parse", "cfg": c, "streams": [], "n_bytes": len(data),
+                    "summary": f"overlapping serializations sharing one options object: the {name} file ({len(data)} bytes) does not "
+                               f"parse: {type(ex).__name__}: {ex}"}, "returned"
+        w = [T.norm_stmt(x) for x in want]
+        if (got != w) if c["integration"] == "generic" else (set(got) != set(w)):
+            return {"clause": "parse-differs", "cfg": c, "streams": [], "n_bytes": len(data),
+                    "summary": f"overlapping serializations sharing one options object: the {name} file holds {len(got)} statements, "
+                               f"{len(w)} were submitted"}, "returned"
+    return None, "returned"
+
+
 def run_shard(ctx):
     monitors.stream_registry_on()
+    if ctx.shard == 0:
+        for c in nested_cases():
+            w, outcome = run_nested(c)
+            ctx.observe("nested-serializations")
+            ctx.observe("configurations-accepted" if outcome == "returned" else "configurations-raised")
+            if w is not None:
+                ctx.violation(w)
+            ctx.case(tuple(sorted((k, str(v)) for k, v in c.items())), outcome == "returned",
+                     sample={"cfg": c, "kind": "nested serializations sharing one options object"})
     done_all = True
     for idx, c in enumerate(enumerate_configs(ctx.tier)):
         if idx % ctx.nshards != ctx.shard:
@@ -278,6 +336,8 @@ def finalize(merged, tier, seed):
 def replay(w: dict):
     monitors.stream_registry_on()
     c = w["cfg"]
+    if c.get("entry") == "nested_flat_to_file":
+        return run_nested(c)[0]
     res = run_config(c)
     if res["outcome"] == "raised":
         return None
